@@ -19,10 +19,11 @@ def build(ctx, rule):
     v.mod = mod
     v.run = None
     for f in mod.funcs.values():
-        if any(isinstance(n, ast.Call) and norm(n.func).endswith("pickle.load") or (isinstance(n, ast.Call) and norm(n.func).endswith(".load")) for n in walk_own(f.node)):
-            v.run = f
+        for n in walk_own(f.node):
+            if isinstance(n, ast.For) and any(isinstance(c, ast.Call) and isinstance(c.func, ast.Attribute) and c.func.attr == "read_line" and c.args and norm(c.args[0]) == norm(n.target) for c in ast.walk(n)):
+                v.run = f
     if v.run is None:
-        raise AnalysisError(rule, mod.relpath, "cannot find the function that loads the view index")
+        raise AnalysisError(rule, mod.relpath, "cannot find the function that seeks and prints the selected records")
     ctx.analysed_func(v.run)
     run = v.run
     # emission loops: for <o> in <offsets>: <x> = <gaf>.read_line(<o>)
